@@ -432,6 +432,14 @@ Definition parse_date (e : env) (s : text) : option (date * text) :=
   | None => date_from_formats e s
   end.
 
+(* the am/pm and 24:00 adjustments of parseTime *)
+Definition adjust_hour (hour0 : Z) (is_pm is_am : bool) (minute second nanos : Z) : Z :=
+  let hour1 := if (hour0 <? 12) && is_pm then hour0 + 12
+               else if (hour0 =? 12) && is_am then hour0 - 12 else hour0 in
+  if (hour1 =? 24) && (minute =? 0) && (second =? 0) && (nanos =? 0) then 0 else hour1.
+
+Definition clock_bad (hour minute second : Z) : bool := (24 <? hour) || (60 <? minute) || (60 <? second).
+
 (* parseTime: first match whose fields are in range *)
 Fixpoint pick_time (s : text) (ms : list (nat * tmatch)) : option tod :=
   match ms with
@@ -446,11 +454,9 @@ Fixpoint pick_time (s : text) (ms : list (nat * tmatch)) : option tod :=
       let ap := if tm_ap m then nth (pos + tm_len m - 2) s 0%N else 0%N in
       let is_pm := ((ap =? 112) || (ap =? 80))%N in
       let is_am := ((ap =? 97) || (ap =? 65))%N in
-      let hour1 := if (hour0 <? 12) && is_pm then hour0 + 12
-                   else if (hour0 =? 12) && is_am then hour0 - 12 else hour0 in
       let nanos := match tm_frac m with O => 0 | n => nanos_of_digits (sub s p_frac n) end in
-      let hour := if (hour1 =? 24) && (minute =? 0) && (second =? 0) && (nanos =? 0) then 0 else hour1 in
-      if (24 <? hour) || (60 <? minute) || (60 <? second) then pick_time s rest
+      let hour := adjust_hour hour0 is_pm is_am minute second nanos in
+      if clock_bad hour minute second then pick_time s rest
       else Some (Tod hour minute second nanos)
   end.
 
